@@ -5983,6 +5983,261 @@ let ir_seg lo hi =
 let ints_in_range lo hi q =
   forallb (ir_seg lo hi) q
 
+(** val hexv : n -> z option **)
+
+let hexv c0 =
+  if (&&) (N.leb (Npos (XO (XO (XO (XO (XI XH)))))) c0)
+       (N.leb c0 (Npos (XI (XO (XO (XI (XI XH)))))))
+  then Some (Z.sub (Z.of_N c0) (Zpos (XO (XO (XO (XO (XI XH)))))))
+  else if (&&) (N.leb (Npos (XI (XO (XO (XO (XO (XO XH))))))) c0)
+            (N.leb c0 (Npos (XO (XI (XI (XO (XO (XO XH))))))))
+       then Some (Z.sub (Z.of_N c0) (Zpos (XI (XI (XI (XO (XI XH)))))))
+       else if (&&) (N.leb (Npos (XI (XO (XO (XO (XO (XI XH))))))) c0)
+                 (N.leb c0 (Npos (XO (XI (XI (XO (XO (XI XH))))))))
+            then Some
+                   (Z.sub (Z.of_N c0) (Zpos (XI (XI (XI (XO (XI (XO XH))))))))
+            else None
+
+(** val hex4 : n -> n -> n -> n -> z option **)
+
+let hex4 a b c0 d =
+  match hexv a with
+  | Some a' ->
+    (match hexv b with
+     | Some b' ->
+       (match hexv c0 with
+        | Some c' ->
+          (match hexv d with
+           | Some d' ->
+             Some
+               (Z.add
+                 (Z.add
+                   (Z.add
+                     (Z.mul a' (Zpos (XO (XO (XO (XO (XO (XO (XO (XO (XO (XO
+                       (XO (XO XH))))))))))))))
+                     (Z.mul b' (Zpos (XO (XO (XO (XO (XO (XO (XO (XO
+                       XH))))))))))) (Z.mul c' (Zpos (XO (XO (XO (XO XH)))))))
+                 d')
+           | None -> None)
+        | None -> None)
+     | None -> None)
+  | None -> None
+
+(** val is_high : z -> bool **)
+
+let is_high x =
+  (&&)
+    (Z.leb (Zpos (XO (XO (XO (XO (XO (XO (XO (XO (XO (XO (XO (XI (XI (XO (XI
+      XH)))))))))))))))) x)
+    (Z.leb x (Zpos (XI (XI (XI (XI (XI (XI (XI (XI (XI (XI (XO (XI (XI (XO
+      (XI XH)))))))))))))))))
+
+(** val is_low : z -> bool **)
+
+let is_low x =
+  (&&)
+    (Z.leb (Zpos (XO (XO (XO (XO (XO (XO (XO (XO (XO (XO (XI (XI (XI (XO (XI
+      XH)))))))))))))))) x)
+    (Z.leb x (Zpos (XI (XI (XI (XI (XI (XI (XI (XI (XI (XI (XI (XI (XI (XO
+      (XI XH)))))))))))))))))
+
+(** val raw_ok : n -> n -> bool **)
+
+let raw_ok q c0 =
+  (&&)
+    ((&&)
+      ((&&)
+        ((&&) (N.leb (Npos (XO (XO (XO (XO (XO XH)))))) c0)
+          (negb (N.eqb c0 (Npos (XO (XO (XI (XI (XI (XO XH))))))))))
+        (negb (N.eqb c0 q)))
+      (negb
+        ((&&)
+          (N.leb (Npos (XO (XO (XO (XO (XO (XO (XO (XO (XO (XO (XO (XI (XI
+            (XO (XI XH)))))))))))))))) c0)
+          (N.leb c0 (Npos (XI (XI (XI (XI (XI (XI (XI (XI (XI (XI (XI (XI (XI
+            (XO (XI XH))))))))))))))))))))
+    (N.leb c0 (Npos (XI (XI (XI (XI (XI (XI (XI (XI (XI (XI (XI (XI (XI (XI
+      (XI (XI (XO (XO (XO (XO XH))))))))))))))))))))))
+
+(** val spec_decode : n -> str -> str option **)
+
+let rec spec_decode q = function
+| [] -> Some []
+| c0 :: r0 ->
+  if N.eqb c0 (Npos (XO (XO (XI (XI (XI (XO XH)))))))
+  then (match r0 with
+        | [] -> None
+        | d :: r' ->
+          let simple = fun x ->
+            match spec_decode q r' with
+            | Some t -> Some (x :: t)
+            | None -> None
+          in
+          if N.eqb d q
+          then simple q
+          else if N.eqb d (Npos (XO (XI (XO (XO (XO (XI XH)))))))
+               then simple (Npos (XO (XO (XO XH))))
+               else if N.eqb d (Npos (XO (XI (XI (XO (XO (XI XH)))))))
+                    then simple (Npos (XO (XO (XI XH))))
+                    else if N.eqb d (Npos (XO (XI (XI (XI (XO (XI XH)))))))
+                         then simple (Npos (XO (XI (XO XH))))
+                         else if N.eqb d (Npos (XO (XI (XO (XO (XI (XI
+                                   XH)))))))
+                              then simple (Npos (XI (XO (XI XH))))
+                              else if N.eqb d (Npos (XO (XO (XI (XO (XI (XI
+                                        XH)))))))
+                                   then simple (Npos (XI (XO (XO XH))))
+                                   else if N.eqb d (Npos (XI (XI (XI (XI (XO
+                                             XH))))))
+                                        then simple (Npos (XI (XI (XI (XI (XO
+                                               XH))))))
+                                        else if N.eqb d (Npos (XO (XO (XI (XI
+                                                  (XI (XO XH)))))))
+                                             then simple (Npos (XO (XO (XI
+                                                    (XI (XI (XO XH)))))))
+                                             else if N.eqb d (Npos (XI (XO
+                                                       (XI (XO (XI (XI
+                                                       XH)))))))
+                                                  then (match r' with
+                                                        | [] -> None
+                                                        | h1 :: l ->
+                                                          (match l with
+                                                           | [] -> None
+                                                           | h2 :: l0 ->
+                                                             (match l0 with
+                                                              | [] -> None
+                                                              | h3 :: l1 ->
+                                                                (match l1 with
+                                                                 | [] -> None
+                                                                 | h4 :: r2 ->
+                                                                   (match 
+                                                                    hex4 h1
+                                                                    h2 h3 h4 with
+                                                                    | Some x ->
+                                                                    if 
+                                                                    is_low x
+                                                                    then None
+                                                                    else 
+                                                                    if 
+                                                                    is_high x
+                                                                    then 
+                                                                    (match r2 with
+                                                                    | [] ->
+                                                                    None
+                                                                    | b :: l2 ->
+                                                                    (match l2 with
+                                                                    | [] ->
+                                                                    None
+                                                                    | u :: l3 ->
+                                                                    (match l3 with
+                                                                    | [] ->
+                                                                    None
+                                                                    | l4 :: l5 ->
+                                                                    (match l5 with
+                                                                    | [] ->
+                                                                    None
+                                                                    | l6 :: l7 ->
+                                                                    (match l7 with
+                                                                    | [] ->
+                                                                    None
+                                                                    | l8 :: l9 ->
+                                                                    (match l9 with
+                                                                    | [] ->
+                                                                    None
+                                                                    | l10 :: r3 ->
+                                                                    if 
+                                                                    (&&)
+                                                                    (N.eqb b
+                                                                    (Npos (XO
+                                                                    (XO (XI
+                                                                    (XI (XI
+                                                                    (XO
+                                                                    XH))))))))
+                                                                    (N.eqb u
+                                                                    (Npos (XI
+                                                                    (XO (XI
+                                                                    (XO (XI
+                                                                    (XI
+                                                                    XH))))))))
+                                                                    then 
+                                                                    (match 
+                                                                    hex4 l4
+                                                                    l6 l8 l10 with
+                                                                    | Some y ->
+                                                                    if 
+                                                                    is_low y
+                                                                    then 
+                                                                    (match 
+                                                                    spec_decode
+                                                                    q r3 with
+                                                                    | Some t ->
+                                                                    Some
+                                                                    ((Z.to_N
+                                                                    (Z.add
+                                                                    (Z.add
+                                                                    (Zpos (XO
+                                                                    (XO (XO
+                                                                    (XO (XO
+                                                                    (XO (XO
+                                                                    (XO (XO
+                                                                    (XO (XO
+                                                                    (XO (XO
+                                                                    (XO (XO
+                                                                    (XO
+                                                                    XH)))))))))))))))))
+                                                                    (Z.mul
+                                                                    (Z.sub x
+                                                                    (Zpos (XO
+                                                                    (XO (XO
+                                                                    (XO (XO
+                                                                    (XO (XO
+                                                                    (XO (XO
+                                                                    (XO (XO
+                                                                    (XI (XI
+                                                                    (XO (XI
+                                                                    XH)))))))))))))))))
+                                                                    (Zpos (XO
+                                                                    (XO (XO
+                                                                    (XO (XO
+                                                                    (XO (XO
+                                                                    (XO (XO
+                                                                    (XO
+                                                                    XH)))))))))))))
+                                                                    (Z.sub y
+                                                                    (Zpos (XO
+                                                                    (XO (XO
+                                                                    (XO (XO
+                                                                    (XO (XO
+                                                                    (XO (XO
+                                                                    (XO (XI
+                                                                    (XI (XI
+                                                                    (XO (XI
+                                                                    XH))))))))))))))))))) :: t)
+                                                                    | None ->
+                                                                    None)
+                                                                    else None
+                                                                    | None ->
+                                                                    None)
+                                                                    else None))))))
+                                                                    else 
+                                                                    (match 
+                                                                    spec_decode
+                                                                    q r2 with
+                                                                    | Some t ->
+                                                                    Some
+                                                                    ((Z.to_N
+                                                                    x) :: t)
+                                                                    | None ->
+                                                                    None)
+                                                                    | None ->
+                                                                    None)))))
+                                                  else None)
+  else if raw_ok q c0
+       then (match spec_decode q r0 with
+             | Some t -> Some (c0 :: t)
+             | None -> None)
+       else None
+
 (** val iota_json : z -> json list **)
 
 let iota_json len =
@@ -6167,6 +6422,15 @@ let op_valid = function
          | None -> bad_request)
       | None -> bad_request))
 
+(** val op_strlit : z list -> z list **)
+
+let op_strlit = function
+| [] -> bad_request
+| q :: r1 ->
+  (match dec_str r1 with
+   | Some p -> let (b, _) = p in enc_opt enc_str (spec_decode (Z.to_N q) b)
+   | None -> bad_request)
+
 (** val dispatch : z list -> z list **)
 
 let dispatch = function
@@ -6260,6 +6524,19 @@ let dispatch = function
         (match p0 with
          | XI p1 ->
            (match p1 with
+            | XI p2 ->
+              (match p2 with
+               | XI p3 ->
+                 (match p3 with
+                  | XO p4 ->
+                    (match p4 with
+                     | XI p5 ->
+                       (match p5 with
+                        | XH -> op_strlit r0
+                        | _ -> bad_request)
+                     | _ -> bad_request)
+                  | _ -> bad_request)
+               | _ -> bad_request)
             | XO p2 ->
               (match p2 with
                | XI p3 ->
@@ -6273,7 +6550,7 @@ let dispatch = function
                      | _ -> bad_request)
                   | _ -> bad_request)
                | _ -> bad_request)
-            | _ -> bad_request)
+            | XH -> bad_request)
          | XO p1 ->
            (match p1 with
             | XI p2 ->
